@@ -238,7 +238,7 @@ func fundedKey(i int) gen.Key {
 }
 
 func TestTransactionAccounting(t *testing.T) {
-	ev.Check(t, ev.N(260, 12000), func(t *rapid.T) {
+	ev.Check(t, ev.N(900, 16000), func(t *rapid.T) {
 		e := newEnv(t)
 		defer e.b.Chain.Stop()
 		st, err := state.New(e.b.Chain.Genesis().Root(), e.sdb)
@@ -377,7 +377,7 @@ func invalidVariant(t *rapid.T, e *env, st *state.StateDB, gasLeft uint64, i int
 }
 
 func TestInvalidTransactionsRefused(t *testing.T) {
-	ev.Check(t, ev.N(400, 12000), func(t *rapid.T) {
+	ev.Check(t, ev.N(1200, 16000), func(t *rapid.T) {
 		e := newEnv(t)
 		defer e.b.Chain.Stop()
 		st, _ := state.New(e.b.Chain.Genesis().Root(), e.sdb)
@@ -419,7 +419,7 @@ func TestInvalidTransactionsRefused(t *testing.T) {
 // TestInvalidTxMakesBlockInvalid places an invalid transaction into an
 // otherwise valid block and gives it to the import path.
 func TestInvalidTxMakesBlockInvalid(t *testing.T) {
-	ev.Check(t, ev.N(60, 3000), func(t *rapid.T) {
+	ev.Check(t, ev.N(150, 3000), func(t *rapid.T) {
 		nc := rapid.SampledFrom([]gen.NamedConfig{gen.ConfigByName("test-hf1-7"), gen.ConfigByName("all-at-0")}).Draw(t, "config")
 		tr := gen.DrawTree(t, nc, gen.TreeOpts{MaxBranches: 1, MaxDepth: 4, MinMain: 2, MaxTxs: 3, Kinds: []string{"transfer", "store-set", "emit", "bouncer"}})
 		defer tr.Close()
